@@ -78,6 +78,7 @@ func (r *Value) set(value proto.Message, request WriteRequest) (proto.Message, e
 		return nil, err
 	}
 
+	verifYield("Value.set:before-publish")
 	ctx, cancel := context.WithTimeout(context.TODO(), time.Second*5)
 	defer cancel()
 	r.bus.Send(ctx, &ValueChange{
